@@ -213,3 +213,55 @@ func returnRows(c *Ctx, fn *ssa.Function) []siteRow {
 	}
 	return rows
 }
+
+// callSiteRows: every call of the named functions inside fns, with rendered arguments and reach conditions.
+func callSiteRows(c *Ctx, fns []*ssa.Function, callees ...string) []siteRow {
+	var rows []siteRow
+	count := map[string]int{}
+	want := map[string]bool{}
+	for _, n := range callees {
+		want[n] = true
+	}
+	sorted := append([]*ssa.Function{}, fns...)
+	sort.Slice(sorted, func(i, j int) bool { return funcName(sorted[i]) < funcName(sorted[j]) })
+	for _, fn := range sorted {
+		eachInstr(fn, func(i ssa.Instruction) {
+			cc := callOf(i)
+			if cc == nil || !want[calleeName(cc)] {
+				return
+			}
+			k := calleeName(cc) + " called in " + funcName(fn)
+			count[k]++
+			var args []string
+			for _, a := range callArgs(cc) {
+				args = append(args, c.Expr(a))
+			}
+			kind := "call"
+			switch i.(type) {
+			case *ssa.Defer:
+				kind = "defer"
+			case *ssa.Go:
+				kind = "go"
+			}
+			attrs := append([]string{kind + " args (" + strings.Join(args, ", ") + ")"}, c.reachConds(i.Block())...)
+			// is the (boolean / error) result checked?
+			if v, ok := i.(ssa.Value); ok && v.Referrers() != nil {
+				used := false
+				for _, rf := range *v.Referrers() {
+					if _, isDbg := rf.(*ssa.DebugRef); !isDbg {
+						used = true
+					}
+				}
+				if sig := cc.Signature(); sig != nil && sig.Results().Len() > 0 {
+					if used {
+						attrs = append(attrs, "result used")
+					} else {
+						attrs = append(attrs, "result ignored")
+					}
+				}
+			}
+			rows = append(rows, siteRow{fmt.Sprintf("%s#%d", k, count[k]), attrs, i})
+		})
+	}
+	return rows
+}
